@@ -217,6 +217,9 @@ class Chain:
         crate = self.contracts.get(contract)
         if crate is None:
             raise TxFailed('no such contract ' + str(contract))
+        # the sender of a message is an existing account, hence a valid address (platform fact)
+        I.assume(I.addr_valid(sender))
+        I.assume(I.addr_valid(contract))
         fv = Vc([clone(c) for c in funds])
         if fv.e:
             send(I, sender, contract, fv)
